@@ -166,7 +166,7 @@ _case_counter = [0]
 
 
 def _run_case_file(path, timeout):
-    r = subprocess.run(['coqc', '-R', COQ, 'PV', path], cwd=CASES, stdout=subprocess.PIPE,
+    r = subprocess.run(['bash', '-c', 'ulimit -s unlimited 2>/dev/null; exec coqc -R "$0" PV "$1"', COQ, path], cwd=CASES, stdout=subprocess.PIPE,
                        stderr=subprocess.STDOUT, text=True, timeout=timeout)
     for ext in ('.vo', '.vok', '.vos', '.glob'):
         try: os.remove(path[:-2] + ext)
